@@ -80,7 +80,7 @@ impl RequestHandler<References> for FindReferencesHandler {
                 .to_file_path()
                 .unwrap(),
             to_line_col(&params.text_document_position.position),
-            |ty| matches!(ty, DefinitionType::Symbol(_)),
+            |ty| !matches!(ty, DefinitionType::Filename(_)),
         );
 
         let locations = defs
